@@ -53,9 +53,16 @@ func (c *CoffCase) Reqs() []Req {
 
 func (c *CoffCase) Judge(rs []Res, env *Env) Outcome {
 	o := Outcome{Cell: c.Cell_}
+	flatOK, _ := env.accepted(&rs[1])
 	for i := range rs {
 		if ok, why := env.accepted(&rs[i]); !ok {
 			// "declared but not found" warnings for undefined GLOBALs are expected
+			if flatOK && i != 1 {
+				// the same program assembles as a flat binary: the refusal comes from producing the object
+				o.Status = Violated
+				o.Viols = []Violation{{Sig: c.Prop + "|object-refused", Detail: fmt.Sprintf("the program assembles as a flat binary but is refused with [FORMAT \"WCOFF\"] (%s); source:\n%s", why, clipStr(c.source(true), 1500))}}
+				return o
+			}
 			o.Status, o.Note = Rejected, why
 			return o
 		}
